@@ -510,12 +510,28 @@ enum Pre {
     Bert,
     Digits(bool),
     Seq(Vec<Pre>),
+    /// What `Tokenizer::from_json` builds for `ByteLevel { use_regex: false }`:
+    /// `Split { pattern: ".*", invert: true, Remove }`.
+    ByteLevelNoRegex,
 }
 
 impl Pre {
+    /// Pre-tokenizers the crate uses as (or documents to be) lossless: their chunks must
+    /// partition the input. `Split` with `Remove` is lossless only if the pattern covers the text.
+    fn promised_lossless(&self) -> bool {
+        match self {
+            Pre::None | Pre::Gpt2 | Pre::Bert | Pre::Digits(_) | Pre::ByteLevelNoRegex => true,
+            Pre::Split { pattern, invert, isolate } => {
+                *isolate || (*invert && (pattern == "(?s)." || pattern == r"\s+|\S+"))
+            }
+            Pre::Seq(ps) => ps.iter().all(|p| p.promised_lossless()),
+        }
+    }
+
     fn kind(&self) -> &'static str {
         match self {
             Pre::None => "none",
+            Pre::ByteLevelNoRegex => "bytelevel_noregex",
             Pre::Gpt2 => "gpt2",
             Pre::Split { .. } => "split",
             Pre::Bert => "bert",
@@ -602,6 +618,13 @@ impl Cache {
             .ok()
             .map(|s| Rc::new(s) as Rc<dyn PreTokenizer>),
             Pre::Bert => Some(Rc::new(pt::Bert::new())),
+            Pre::ByteLevelNoRegex => Split::new(SplitOptions {
+                pattern: r".*",
+                invert: true,
+                ..Default::default()
+            })
+            .ok()
+            .map(|s| Rc::new(s) as Rc<dyn PreTokenizer>),
             Pre::Digits(ind) => Some(Rc::new(pt::Digits::new(*ind))),
             Pre::Seq(ps) => {
                 let mut v: Vec<Box<dyn PreTokenizer>> = Vec::new();
@@ -655,6 +678,45 @@ impl Cache {
     }
 }
 
+// ---------------------------------------------------------------- tokenizer.json path
+
+fn json_str(s: &str) -> String {
+    let mut o = String::from("\"");
+    for c in s.chars() {
+        match c {
+            '"' => o.push_str("\\\""),
+            '\\' => o.push_str("\\\\"),
+            c if (c as u32) < 0x20 => o.push_str(&format!("\\u{:04x}", c as u32)),
+            c => o.push(c),
+        }
+    }
+    o.push('"');
+    o
+}
+
+/// The tokenizer for `cfg` built by the crate's own `Tokenizer::from_json` with the pre-tokenizer
+/// `ByteLevel { use_regex: false }` (the code path that constructs the "no-op" splitter).
+fn json_tokenizer(cfg: &Cfg) -> Option<Tokenizer> {
+    let vocab = join(cfg.vocab.iter().map(|(k, v)| format!("{}:{}", json_str(k), v)), ",");
+    let merges = join(cfg.merges.iter().map(|(a, b)| format!("[{},{}]", json_str(a), json_str(b))), ",");
+    let added = join(
+        cfg.added.iter().map(|(id, c)| format!("{{\"content\":{},\"id\":{}}}", json_str(c), id)),
+        ",",
+    );
+    let eow = match cfg.eow.as_deref() {
+        Some(s) => json_str(s),
+        None => "null".to_string(),
+    };
+    let json = format!(
+        "{{\"added_tokens\":[{added}],\"normalizer\":null,\"pre_tokenizer\":{{\"type\":\"ByteLevel\",\"use_regex\":false}},\"model\":{{\"type\":\"BPE\",\"vocab\":{{{vocab}}},\"merges\":[{merges}],\"end_of_word_suffix\":{eow},\"ignore_merges\":{}}}}}",
+        cfg.ignore
+    );
+    match hcommon::catch(|| Tokenizer::from_json(&json)) {
+        Ok(Ok(t)) => Some(t),
+        _ => None,
+    }
+}
+
 // ---------------------------------------------------------------- one E case
 
 fn len_bucket(n: usize, edges: &[usize]) -> String {
@@ -687,11 +749,15 @@ fn run_e(out: &mut Out, cache: &mut Cache, cfg: &Cfg, text: &str, pre: &Pre, nor
             Err(_) => return out.bucket("dropped_norm_panic"),
         },
     };
-    let pre_rc = cache.pre(pre);
-    if !matches!(pre, Pre::None) && pre_rc.is_none() {
+    // ByteLevel{use_regex:false} is built by the crate itself (from_json); its chunks cannot be
+    // observed directly, so the model gets what a no-op splitter promises: the whole text.
+    let via_json = matches!(pre, Pre::ByteLevelNoRegex);
+    let pre_rc = if via_json { None } else { cache.pre(pre) };
+    if !matches!(pre, Pre::None) && !via_json && pre_rc.is_none() {
         return out.bucket("dropped_pre_build");
     }
     let pieces: Vec<(usize, usize)> = match &pre_rc {
+        None if via_json && normalized.is_empty() => vec![],
         None => vec![(0, normalized.len())],
         Some(p) => match hcommon::catch(|| {
             p.pre_tokenize(&normalized).map(|v| {
@@ -736,6 +802,15 @@ fn run_e(out: &mut Out, cache: &mut Cache, cfg: &Cfg, text: &str, pre: &Pre, nor
 
     // the tokenizer under test
     let tokenizer = match hcommon::catch(|| cfg.build()) {
+        Ok(Ok(_)) if via_json => {
+            let Some(mut t) = json_tokenizer(cfg) else {
+                return out.bucket("dropped_json_build");
+            };
+            if let Some(n) = &norm_rc {
+                t = t.with_normalizer(Box::new(SharedNorm(n.clone())));
+            }
+            t
+        }
         Ok(Ok(bpe)) => {
             let mut t = Tokenizer::new(bpe, Default::default());
             if let Some(p) = &pre_rc {
@@ -755,7 +830,22 @@ fn run_e(out: &mut Out, cache: &mut Cache, cfg: &Cfg, text: &str, pre: &Pre, nor
             *f = Some(m);
         }
     };
-    let roundtrip_applies = !eow_on && !clash && lossless && (map.is_none() || norm_identity);
+    let promised = pre.promised_lossless();
+    if promised && !lossless {
+        // The chunks of a pre-tokenizer that is used as lossless do not partition its input:
+        // the hypothesis of the round-trip theorems fails on the implementation.
+        set_fail(
+            &mut fail,
+            format!(
+                "pretok: {} pre-tokenizer dropped text: chunks {:?} do not partition the {} input bytes",
+                pre.kind(),
+                pieces,
+                normalized.len()
+            ),
+        );
+        out.bucket("pretok_promise_broken");
+    }
+    let roundtrip_applies = !eow_on && !clash && (lossless || promised) && (map.is_none() || norm_identity);
     let mut n_tokens: Option<usize> = None;
     let mut decode_bucket = "decode_none";
 
@@ -1184,7 +1274,8 @@ fn gen_pre_leaf(rng: &mut Rng, text: &str) -> Pre {
 
 fn gen_pre(rng: &mut Rng, text: &str) -> Pre {
     match rng.below(100) {
-        0..=14 => Pre::None,
+        0..=9 => Pre::None,
+        10..=14 => Pre::ByteLevelNoRegex,
         15..=44 => Pre::Gpt2,
         45..=79 => gen_split(rng, text),
         80..=84 => Pre::Bert,
@@ -1346,6 +1437,169 @@ fn run(args: &Args) {
             }
             run_e(&mut out, &mut cache, cfg, "The Cat É", &Pre::Gpt2, Norm::BertLower);
             run_e(&mut out, &mut cache, cfg, "e\u{301} the", &Pre::Gpt2, Norm::Nfc);
+        }
+    }
+
+    // ---- end-to-end coverage sweep: real Split::gpt2 (= ByteLevel{use_regex:true}) and the
+    // ByteLevel{use_regex:false} splitter + real byte-complete Bpe on chars of every general
+    // category, singly and in context. Blocks of scalars are summarised in `#sweep` lines (not
+    // compared with the model); every failing text is reported as a regular E case.
+    {
+        let cfg = Cfg {
+            kind: Kind::Auto,
+            merges: pairs(&[("Ġ", "x"), ("x", "x")]),
+            vocab: mimic_vocab(&ctx, &pairs(&[("Ġ", "x"), ("x", "x")]), false),
+            pass_vocab: false,
+            eow: None,
+            ignore: false,
+            added: vec![],
+        };
+        if run_t(&mut out, &cfg) {
+            // category representatives (Lu Ll Lt Lm Lo Mn Mc Me Nd Nl No Pc Pd Ps Pe Pi Pf Po Sm Sc Sk So
+            // Zs Zl Zp Cc Cf Co Cn) + emoji ZWJ / flags / variation selectors: full E cases
+            let reps: &[&str] = &[
+                "A", "a", "\u{1C5}", "\u{2B0}", "\u{5D0}", "\u{301}", "\u{903}", "\u{20DD}", "7", "\u{663}",
+                "\u{2167}", "\u{3007}", "\u{B2}", "\u{B9}", "\u{BD}", "\u{2460}", "\u{2074}", "\u{2153}",
+                "_", "-", "(", ")", "\u{AB}", "\u{BB}", "!", "+", "$", "^", "\u{A9}", " ", "\u{A0}", "\u{3000}",
+                "\u{2028}", "\u{2029}", "\u{0}", "\u{85}", "\n", "\r\n", "\t", "\u{AD}", "\u{200D}", "\u{FEFF}",
+                "\u{E000}", "\u{378}", "\u{FFFF}", "\u{10FFFF}", "\u{1F468}\u{200D}\u{1F469}\u{200D}\u{1F467}",
+                "\u{1F1E9}\u{1F1EA}", "\u{2764}\u{FE0F}", "x\u{B2}", "\u{BD} cup", "a\nb", "a\n\nb", "\n",
+                "line1\r\nline2\n", "\u{2167}x 1\u{2460}",
+            ];
+            for r in reps {
+                for ctxt in ["{}", " {}", "x{} x", "1{}", "{}\n"] {
+                    let t = ctxt.replace("{}", r);
+                    for pre in [Pre::Gpt2, Pre::ByteLevelNoRegex] {
+                        run_e(&mut out, &mut cache, &cfg, &t, &pre, Norm::None);
+                    }
+                }
+            }
+            // sweep over scalar values (quick: all below U+3000, every 53rd above; thorough: all)
+            let mk = |pre: &Pre, cache: &mut Cache| {
+                if matches!(pre, Pre::ByteLevelNoRegex) {
+                    return json_tokenizer(&cfg);
+                }
+                let bpe = cfg.build().ok()?;
+                let p = cache.pre(pre)?;
+                Some(Tokenizer::new(bpe, Default::default()).with_pre_tokenizer(Box::new(SharedPre(p))))
+            };
+            let toks: Vec<(Pre, Option<Tokenizer>)> = [Pre::Gpt2, Pre::ByteLevelNoRegex]
+                .into_iter()
+                .map(|p| {
+                    let t = mk(&p, &mut cache);
+                    (p, t)
+                })
+                .collect();
+            let mut block_start = 0u32;
+            let mut in_block = 0u32;
+            let mut block_fail: Option<String> = None;
+            let mut failing_texts: Vec<(String, Pre)> = Vec::new();
+            let mut cp = 0u32;
+            while cp <= 0x10FFFF {
+                let step = if args.thorough || cp < 0x3000 { 1 } else { 53 };
+                if let Some(ch) = char::from_u32(cp) {
+                    for ctxt in ["{}", " x{}", "{}x ", "1{}"] {
+                        let t = ctxt.replace("{}", &ch.to_string());
+                        for (pre, tk) in &toks {
+                            let Some(tk) = tk else { continue };
+                            let ok = hcommon::catch(|| {
+                                let enc = tk.encode(t.as_str(), None).ok()?;
+                                let dec = tk.decode(enc.token_ids()).ok()?;
+                                let mut cat = String::new();
+                                for i in 0..enc.token_ids().len() {
+                                    cat.push_str(enc.text_for_token_range(i..i + 1)?);
+                                }
+                                Some(dec == t && (cat == t || enc.token_ids().is_empty()))
+                            });
+                            if !matches!(ok, Ok(Some(true))) {
+                                if block_fail.is_none() {
+                                    block_fail = Some(format!(
+                                        "sweep: {} end-to-end round trip / slice concatenation fails for {:?}",
+                                        pre.kind(),
+                                        t
+                                    ));
+                                }
+                                if failing_texts.len() < 40 {
+                                    failing_texts.push((t.clone(), pre.clone()));
+                                }
+                            }
+                        }
+                    }
+                    in_block += 1;
+                }
+                cp += step;
+                if in_block >= 4096 || cp > 0x10FFFF {
+                    let req = format!("#sweep U+{:04X}..U+{:04X} {} scalars x 4 contexts x 2 pre-tokenizers", block_start, cp.saturating_sub(1).min(0x10FFFF), in_block);
+                    out.bucket("sweep_block");
+                    out.case(&req, "swept", block_fail.as_deref(), in_block > 0);
+                    block_start = cp;
+                    in_block = 0;
+                    block_fail = None;
+                }
+            }
+            // every (capped) failing text again as a full E case: concrete replay + model comparison
+            for (t, pre) in &failing_texts {
+                run_e(&mut out, &mut cache, &cfg, t, pre, Norm::None);
+            }
+        }
+    }
+
+    // ---- D lines: decode of arbitrary id sequences (all 256 byte tokens singly, UTF-8 sequences
+    // split across tokens, truncated / invalid sequences, unknown ids) on a byte-complete tokenizer
+    {
+        let cfg = Cfg {
+            kind: Kind::Auto,
+            merges: vec![],
+            vocab: mimic_vocab(&ctx, &[], false),
+            pass_vocab: false,
+            eow: None,
+            ignore: false,
+            added: vec![(300, "<|endoftext|>".to_string())],
+        };
+        if run_t(&mut out, &cfg) {
+            if let Ok(bpe) = cfg.build() {
+                let tk = Tokenizer::new(bpe, Default::default());
+                let id_of = |b: u8| ctx.rank[b as usize];
+                let mut seqs: Vec<Vec<u32>> = (0..=255u8).map(|b| vec![id_of(b)]).collect();
+                for s in ["é", "中", "😀", "a😀b", "e\u{301}", "\u{10FFFF}", "\u{7FF}\u{800}"] {
+                    let bytes = s.as_bytes();
+                    for k in 0..=bytes.len() {
+                        seqs.push(bytes[..k].iter().map(|&b| id_of(b)).collect());
+                        seqs.push(bytes[k..].iter().map(|&b| id_of(b)).collect());
+                    }
+                }
+                // overlong / surrogate / out-of-range / stray continuation encodings
+                for bs in [
+                    &[0xC0u8, 0x80][..], &[0xC1, 0xBF], &[0xE0, 0x80, 0x80], &[0xE0, 0x9F, 0xBF], &[0xED, 0xA0, 0x80],
+                    &[0xED, 0x9F, 0xBF], &[0xF0, 0x80, 0x80, 0x80], &[0xF0, 0x8F, 0xBF, 0xBF], &[0xF4, 0x90, 0x80, 0x80],
+                    &[0xF4, 0x8F, 0xBF, 0xBF], &[0xF5, 0x80, 0x80, 0x80], &[0x80], &[0xBF, 0x41], &[0x41, 0xC3],
+                    &[0xE2, 0x82], &[0xFF], &[0xFE],
+                ] {
+                    seqs.push(bs.iter().map(|&b| id_of(b)).collect());
+                }
+                seqs.push(vec![300]);
+                seqs.push(vec![id_of(b'a'), 300, id_of(b'b')]);
+                seqs.push(vec![256]);
+                seqs.push(vec![id_of(b'a'), 99_999]);
+                seqs.push(vec![]);
+                let n_rand = if args.thorough { 20_000 } else { 2_000 };
+                for _ in 0..n_rand {
+                    let n = 1 + rng.usize_below(6);
+                    seqs.push((0..n).map(|_| if rng.chance(1, 40) { 256 + rng.below(60) as u32 } else { id_of(rng.below(256) as u8) }).collect());
+                }
+                for ids in &seqs {
+                    let res = hcommon::catch(|| tk.decode(ids));
+                    let (ans, fail) = match &res {
+                        Err(m) => ("d=panic".to_string(), Some(format!("panic: decode: {m}"))),
+                        Ok(Ok(s)) => (format!("d=ok:{}", bytes_dot(s.as_bytes())), None),
+                        Ok(Err(TokenizerError::DecodeError(DecodeError::InvalidTokenId(_)))) => ("d=err:id".to_string(), None),
+                        Ok(Err(TokenizerError::DecodeError(DecodeError::InvalidUtf8))) => ("d=err:utf8".to_string(), None),
+                        Ok(Err(_)) => ("d=err:other".to_string(), None),
+                    };
+                    out.bucket(&format!("D_{}", ans.split(':').next().unwrap_or("").trim_start_matches("d=")));
+                    out.case(&format!("D;{}", join(ids.iter(), ",")), &ans, fail.as_deref(), ids.len() > 1);
+                }
+            }
         }
     }
 
